@@ -75,6 +75,37 @@ both_families! {
 		let rev: Vec<String> = p.normalized_segments().rev().map(|x| x.as_str().to_string()).collect();
 		let mut rn = n.clone(); rn.reverse();
 		ensure!(rev == rn, "normalized_segments-rev", "{ctx} {:?}: reversed normalized_segments() = {:?}, model {:?}", text, rev, rn);
+		// internal iteration (fold / rfold / try_fold / try_rfold / for_each are separately overridable) and mixed ends
+		{
+			let st = |x: &Segment| x.as_str().to_string();
+			let f: Vec<String> = p.normalized_segments().fold(Vec::new(), |mut v, x| { v.push(st(x)); v });
+			ensure!(f == n, "normalized_segments-fold", "{ctx} {:?}: normalized_segments().fold(..) visits {:?}, model N = {:?}", text, f, n);
+			let rf: Vec<String> = p.normalized_segments().rfold(Vec::new(), |mut v, x| { v.push(st(x)); v });
+			ensure!(rf == rn, "normalized_segments-rfold", "{ctx} {:?}: normalized_segments().rfold(..) visits {:?}, model reversed {:?}", text, rf, rn);
+			let mut fe: Vec<String> = Vec::new();
+			p.normalized_segments().rev().for_each(|x| fe.push(st(x)));
+			ensure!(fe == rn, "normalized_segments-rev-for_each", "{ctx} {:?}: normalized_segments().rev().for_each(..) visits {:?}, model reversed {:?}", text, fe, rn);
+			let mut tf: Vec<String> = Vec::new();
+			let _ = p.normalized_segments().try_fold((), |(), x| { tf.push(st(x)); Some(()) });
+			let mut trf: Vec<String> = Vec::new();
+			let _ = p.normalized_segments().try_rfold((), |(), x| { trf.push(st(x)); Some(()) });
+			ensure!(tf == n && trf == rn, "normalized_segments-try_fold", "{ctx} {:?}: try_fold visits {:?}, try_rfold visits {:?}, model N = {:?}", text, tf, trf, n);
+			let (l1, l2) = (p.normalized_segments().last().map(st), p.normalized_segments().rev().last().map(st));
+			ensure!(l1.as_ref() == n.last() && l2.as_ref() == n.first(), "normalized_segments-last", "{ctx} {:?}: last() = {:?}, rev().last() = {:?}, model N = {:?}", text, l1, l2, n);
+			// alternate ends: front, back, front, ...
+			let mut it = p.normalized_segments();
+			let (mut front, mut back): (Vec<String>, Vec<String>) = (Vec::new(), Vec::new());
+			let mut turn = true;
+			loop {
+				let x = if turn { it.next() } else { it.next_back() };
+				match x { Some(x) => if turn { front.push(st(x)) } else { back.push(st(x)) }, None => break }
+				turn = !turn;
+				if front.len() + back.len() > n.len() + 2 { break }
+			}
+			back.reverse();
+			front.extend(back);
+			ensure!(front == n, "normalized_segments-alternating", "{ctx} {:?}: taking normalized segments alternately from both ends gives {:?}, model N = {:?}", text, front, n);
+		}
 		// (2) normalized copy
 		let nb = guard(|| p.normalized()).map_err(|pi| Failure::new(format!("panic-normalized:{}", pi.loc), format!("{ctx} {:?}: normalized() panicked at {}: {}", text, pi.loc, pi.msg)))?;
 		let nt = nb.as_str().to_string();
